@@ -256,6 +256,43 @@ let handle (line:string) : string =
   | "LIKE" :: p1 :: p2 :: ws ->
     let (a, b) = split_at ";" ws in
     if terms_are_like (expr_of a) (path_of p1) (expr_of b) (path_of p2) then "1" else "0"
+  | "PROB" :: ws ->
+    let (ps, ds) = split_at "|" ws in
+    let draws = List.map z_of_string ds in
+    let b x = (x = "1") in
+    let q x = (match String.split_on_char '/' x with [a; d] -> { qnum = z_of_string a; qden = pos_of_z (z_of_string d) } | _ -> failwith "q") in
+    let z = z_of_string in
+    let opc_of c = (match c with '+' -> OPlus | '-' -> OMinus | _ -> OTimes) in
+    let total = List.length draws in
+    let fin (r : (problem * z) pres) = (match r with
+      | POk ((p, c), rest) -> "OK " ^ string_of_int (total - List.length rest) ^ " " ^ str_z c ^ " " ^ String.concat " " (List.map str_n (render p))
+      | PRaise -> "RAISE" | PBad -> "BAD" | PRange -> "RANGE") in
+    (match ps with
+     | ["combine"; pr; mn; mx; easy; pw] -> fin (gen_combine_terms_in_place (b pr) (z mn) (z mx) (b easy) (b pw) draws)
+     | ["haystack"; pr; mn; mx; bl; easy; pw] -> fin (gen_commute_haystack (b pr) (z mn) (z mx) (z bl) (b easy) (b pw) draws)
+     | ["blockers1"; pr; n; pp] -> fin (gen_move_around_blockers_one (b pr) (z n) (q pp) draws)
+     | ["blockers2"; pr; n; pp] -> fin (gen_move_around_blockers_two (b pr) (z n) (q pp) draws)
+     | ["binbin"; pr; mn; mx; simple; pp; lp] -> fin (gen_binomial_times_binomial (b pr) (z mn) (z mx) (b simple) (q pp) (q lp) draws)
+     | ["binmono"; pr; mn; mx; simple; pp; lp] -> fin (gen_binomial_times_monomial (b pr) (z mn) (z mx) (b simple) (q pp) (q lp) draws)
+     | ["simplify"; pr; nt; ov; om; its; pp; ovp; np; shp; svp; gnp; noise] ->
+       let mode = (if om = "R" then OpRand else if om.[0] = 'F' then OpFixed (opc_of om.[1])
+                   else OpChoice (List.init (String.length om - 1) (fun i -> opc_of om.[i + 1]))) in
+       fin (gen_simplify_multiple_terms (b pr) (z nt) (b ov) mode (q its) (q pp) (q ovp) (q np) (q shp) (q svp) (q gnp)
+              (if noise = "-" then None else Some (z noise)) draws)
+     | ["rvars"; n; common; excl] ->
+       let ex = (if excl = "-" then [] else List.map (fun i -> { v_common = b common; v_idx = nat_of_int (int_of_string i) }) (String.split_on_char ',' excl)) in
+       (match get_rand_vars (z n) ex (b common) draws with
+        | POk (vs, rest) -> "OK " ^ string_of_int (total - List.length rest) ^ " " ^ String.concat " " (List.map (fun v -> str_n (letter v)) vs)
+        | PRaise -> "RAISE" | PBad -> "BAD" | PRange -> "RANGE")
+     | ["split"; v] ->
+       (match split_in_two_random (z v) draws with
+        | POk ((a, c), rest) -> "OK " ^ string_of_int (total - List.length rest) ^ " " ^ str_z a ^ " " ^ str_z c
+        | PRaise -> "RAISE" | PBad -> "BAD" | PRange -> "RANGE")
+     | ["rnum"; pr] ->
+       (match rand_number (b pr) draws with
+        | POk (c, rest) -> "OK " ^ string_of_int (total - List.length rest) ^ " " ^ String.concat " " (List.map str_n (r_num c))
+        | PRaise -> "RAISE" | PBad -> "BAD" | PRange -> "RANGE")
+     | _ -> "?")
   | _ -> "?"
 
 let () =
